@@ -1,5 +1,6 @@
 (** Contraction trees: ports of SymbolicTensorNetwork._build_contraction_tree,
-    TensorNetwork.contract_tree (axis tracking, root permutation),
+    TensorNetwork.contract_tree (axis tracking, root permutation incl. the transposition of the
+    stored tensor of a single-leaf root),
     ContractionTreeNode.permute_axes and perform_tree_contraction.  No proofs here. *)
 From Qib Require Export TN.TNValue.
 Local Open Scope Z_scope.
@@ -188,10 +189,23 @@ Fixpoint permute_axes (t : tree) (path : list bool) (p : list nat) : option tree
 Section Eval.
   Context {K : Scalar}.
 
-  (** perform_tree_contraction: a leaf is the stored tensor, an inner node one binary einsum *)
+  (** numpy.transpose(T, p):  shape'[j] = shape[p[j]],  T'[x] = T[y] with y[p[j]] = x[j],
+      i.e. y = x picked by the inverse permutation *)
+  Definition tv_transpose (v : @tval K) (p : list nat) : @tval K :=
+    (pick O (fst v) p, fun x => snd v (pick O x (inv_perm p))).
+
+  (** perform_tree_contraction on the tensor dictionary contract_tree hands over: an inner node
+      is one binary einsum; a leaf is its entry of the dictionary, which is the stored tensor
+      laid out as the leaf's idxout says.  idxout of a leaf is range(ndim) as built, and
+      permute_axes only relabels a leaf (idxout = the permutation, trackaxes = its inverse):
+      the caller has to transpose the entry accordingly - tests/test_tensor_network.py does it
+      by hand, contract_tree does it for a single-leaf root since the repair
+      proposed_fixes/C07-single-leaf-root-transpose.diff
+          tensor_dict[tree.tid] = np.transpose(tensor_dict[tree.tid], perm).
+      (All other leaves keep idxout = range(ndim) inside contract_tree: the stored tensor.) *)
   Fixpoint tree_eval (n : net) (data : Z -> list nat -> K) (t : tree) : option (@tval K) :=
     match t with
-    | TLeaf tid _ _ _ => option_map (fun x => (t_shape x, data (t_ref x))) (dget tid (tensors n))
+    | TLeaf tid o _ _ => option_map (fun x => tv_transpose (t_shape x, data (t_ref x)) o) (dget tid (tensors n))
     | TNode _ l xl r xr o _ _ =>
         match tree_eval n data l, tree_eval n data r with
         | Some vl, Some vr => Some (einsum_sem [(vl, xl); (vr, xr)] o)
